@@ -94,3 +94,6 @@ Definition snippet_of_text (src : string) : snippet :=
 Definition run_repl_lines (fuel : nat) (mods : list (string * string)) (snips : list string)
   : list (list string) :=
   map outcome_lines (run_repl_with fuel (text_modmap mods) (map snippet_of_text snips)).
+
+Definition core_ast_matches_text (src : string) : bool :=
+  core_ast_matches (hex_of_bytes (list_byte_of_string src)).
